@@ -27,6 +27,7 @@ type GenOpts struct {
 	MinTuples   int
 	ForceShapes bool // bias towards recursion/ttu shapes where strategies differ
 	MultiParent float64 // probability that doc#parent admits a second parent type (default 0.3)
+	ForceCycles bool    // include tuple cycles (mutual usersets) wherever the model allows them
 }
 
 func pick[T any](r *rand.Rand, xs []T) T { return xs[r.Intn(len(xs))] }
@@ -451,6 +452,33 @@ func GenTuples(r *rand.Rand, m *Model, opts GenOpts) []Tuple {
 				t.Cctx = CtxFor(r, m.Cond(t.C), pick(r, []string{"T", "T", "F", "F", "none"}))
 			}
 			add(t)
+		}
+	}
+	if opts.ForceCycles {
+		// mutual usersets: o1#r@o2#r2 together with o2#r2@o1#r (same or different relations), each with a
+		// direct member next to it so that a fan-out has a cycle child and plain children
+		byKey := map[string]Tuple{}
+		for _, t := range valid {
+			if t.C == "" {
+				byKey[t.Key()] = t
+			}
+		}
+		added := 0
+		for _, t := range valid {
+			if added >= 3 || t.C != "" || t.U.Rel == "" || (t.U.T == t.O.T && t.U.ID == t.O.ID) {
+				continue
+			}
+			back := Tuple{O: Obj{t.U.T, t.U.ID}, R: t.U.Rel, U: Subj{t.O.T, t.O.ID, t.R}}
+			if b, ok := byKey[back.Key()]; ok {
+				add(t)
+				add(b)
+				added++
+				for _, d := range valid {
+					if d.C == "" && d.U.Rel == "" && d.U.ID != "*" && (d.O == t.O && d.R == t.R || d.O == b.O && d.R == b.R) && chance(r, 0.5) {
+						add(d)
+					}
+				}
+			}
 		}
 	}
 	for _, t := range valid {
